@@ -31,6 +31,8 @@ META = {
     "bounds": ["serial: one observed frame from an arbitrary remembered device type (induction), 0..3 queues",
                "subscriber registries (serial queues, hid callbacks): every history of 4 (thorough 6) join/leave "
                "operations, solver-chosen",
+               "serial histories with the real decoder: ENABLE DEVICE TYPE a, extended frame X, ENABLE DEVICE "
+               "TYPE b (or a plain frame), X again - a, b symbolic 0..255, X from 3 addresses x 8 opcodes",
                "Tridonic: histories of 2 (thorough 3) reports x 11 report kinds x symbolic fields x gap "
                "shorter/longer than the timeout x own/observed origin; subscribers 0..2"],
     "stubs": ["fake os (harness environment)", "struct format interpreter in symbolic mode",
